@@ -57,7 +57,7 @@ def cases(tier, seed):
                     "kwargs": kwargs, "wantCmap": True, "skip": skip})
     nv = 40 if tier == "quick" else 600
     for k in range(nv):
-        out.append(_var_case(rng, f"c13-{seed}-v{k}"))
+        out.append(_var_case(rng, f"c13-{seed}-v{k}", mode={1: "chain", 3: "diffbuilt", 5: "interp2"}.get(k % 8)))
     return out
 
 
@@ -85,7 +85,11 @@ def _perturb(rng, g):
     return h
 
 
-def _var_case(rng, cid):
+def _var_case(rng, cid, mode=None):
+    """mode: None (random) | "chain" (remaining -> skipped -> skipped, innermost has the intermediate master) |
+    "diffbuilt" (no sparse master; a remaining glyph is drawn as contours in one master and composed from ONE skipped glyph in
+    the other) | "interp2" (two axes, partial-location sparse source, interpolatable entry point) -- the directed patterns
+    get a fixed share of the cases"""
     n = rng.randint(4, 7)
     names = rng.sample(_VNAMES, n)
     m0, depth = {}, {}
@@ -104,7 +108,14 @@ def _var_case(rng, cid):
     # the pattern the two repository fixtures do not have: remaining composite -> skipped composite -> skipped glyph, where
     # only the innermost one has an intermediate master
     chain = None
-    if rng.random() < 0.4:
+    if mode == "diffbuilt":
+        # one simple skipped glyph, referenced exactly once by a remaining glyph that has no other component
+        simple = [nm for nm in names if m0[nm]["cs"] and not m0[nm]["comps"]]
+        s_ = simple[0]
+        m0["Dd"] = {"cs": [], "comps": [{"b": s_, "m": list(rng.choice(_FLIPS)), "d": [rng.randint(-3, 3) * 50 * PS, 0]}], "anchors": [],
+                    "w": 500 * PS, "h": 0, "u": []}
+        names = names + ["Dd"]
+    if mode == "chain" or (mode is None and rng.random() < 0.4):
         chains = [(a, c1["b"], c2["b"]) for a in names for c1 in m0[a]["comps"] for c2 in m0[c1["b"]]["comps"]]
         if not chains and n >= 3:
             a, b, c = names[2], names[1], names[0]
@@ -117,7 +128,7 @@ def _var_case(rng, cid):
             chain = rng.choice(chains)
     m1 = {k: _perturb(rng, g) for k, g in m0.items()}
     sparse = {}
-    if chain or rng.random() < 0.6:
+    if mode != "diffbuilt" and (chain or mode == "interp2" or rng.random() < 0.6):
         pick = [k for k in names if rng.random() < 0.35] or [names[0]]
         if chain:
             pick = sorted((set(pick) - {chain[0], chain[1]}) | {chain[2]})
@@ -134,6 +145,8 @@ def _var_case(rng, cid):
             skip.update(c["b"] for c in m0[name]["comps"] if rng.random() < 0.8)
     if chain:
         skip = (skip - {chain[0]}) | {chain[1], chain[2]}
+    if mode == "diffbuilt":
+        skip = (skip - {"Dd"}) | {m0["Dd"]["comps"][0]["b"]}
     skip = sorted(skip)
     if len(skip) >= len(names):
         skip = skip[:-1]
@@ -144,13 +157,15 @@ def _var_case(rng, cid):
         refs = [n_ for n_ in names if n_ not in skip and any(c["b"] in skip for c in m0[n_]["comps"])]
         if refs:
             flavor = "cff2"
-            n_ = rng.choice(refs)
+            n_ = "Dd" if mode == "diffbuilt" else rng.choice(refs)
             which = m0 if rng.random() < 0.7 else m1
             try:
                 which[n_] = compile_exec.resolved_form(which, n_)
             except absfont.Inexact:
                 pass
-    interp2 = bool(sparse) and flavor == "tt" and rng.random() < 0.4
+    if mode == "interp2":
+        flavor = "tt"
+    interp2 = bool(sparse) and flavor == "tt" and (mode == "interp2" or rng.random() < 0.4)
     return {"cid": cid, "var": True, "interp2": interp2, "lib": rng.choice(["ufoLib2", "defcon"]), "flavor": flavor,
             "m0": m0, "m1": m1, "sparse": sparse, "skip": skip, "via": "dslib", "names": names}   # (the designspace functions take the list from the designspace lib only, as documented)
 
